@@ -44,12 +44,15 @@ def r19_1(ctx):
         ps, _ = _params_of(f, op_local(t["args"][0]))
         len_params |= ps
     ok_len = len(lens) >= 2 and {1, 2} <= len_params and all(f.dominates(lb, ib) for lb, lt in lens for ib, it in iters)
-    ctx.ob("R19.1", "Object::eq:lengths-first", ok_len, f.loc(), "the lengths of both operands are compared before any member" if ok_len else "the member comparison is not preceded by a comparison of both lengths: a subset compares equal in one direction")
     it_params = set()
     for b, t in iters:
         ps, _ = _params_of(f, op_local(t["args"][0]))
         it_params |= ps
     both = {1, 2} <= it_params
+    # with both operands enumerated the relation is symmetric with or without the length test; with one operand
+    # enumerated the length test is what keeps a proper subset from comparing equal
+    ctx.ob("R19.1", "Object::eq:lengths-first", ok_len or both, f.loc(), "the lengths of both operands are compared before any member" if ok_len else
+           ("no length test, but both operands are enumerated" if both else "one operand is enumerated and the member comparison is not preceded by a comparison of both lengths: a subset compares equal in one direction"))
     ctx.ob("R19.1", "Object::eq:quantifies-over-both-operands", both, f.loc(iters[0][1]["ln"]) if iters else f.loc(),
            "the members of both operands are enumerated" if both else
            f"only the members of operand {sorted(it_params)} are enumerated: with a repeated name on that side a name that only the other side has is never looked at, so a == b and b == a differ")
